@@ -90,7 +90,19 @@ func GenCase(r *core.Rng, id int, pDecor, pBad float64) *Case {
 	if r.Chance(0.3) {
 		l = gen.RandomLayout(r, len(defs), true)
 	}
-	return &Case{ID: fmt.Sprintf("g%d", id), Schema: s, SchemaFiles: map[string]string{"schema.graphql": s.SDL()}, Defs: defs, Layout: l, Cfg: gen.RandomCfg(r, s)}
+	cfg := gen.RandomCfg(r, s)
+	// settings interact with options: an explicit `omitempty: false` matters most under
+	// use_struct_references (whose default is omitempty), an explicit `pointer: false` under
+	// optional: pointer
+	for _, df := range defs {
+		if strings.Contains(df.Text, "omitempty: false") && r.Chance(0.5) {
+			cfg.StructReferences = true
+		}
+		if strings.Contains(df.Text, "pointer: false") && cfg.Optional == "" && r.Chance(0.3) {
+			cfg.Optional = "pointer"
+		}
+	}
+	return &Case{ID: fmt.Sprintf("g%d", id), Schema: s, SchemaFiles: map[string]string{"schema.graphql": s.SDL()}, Defs: defs, Layout: l, Cfg: cfg}
 }
 
 type Observed struct {
